@@ -561,7 +561,9 @@ func (m *Model) eventExpField() *types.Var {
 }
 
 func (m *Model) ruleExpArm(r *Results, rule string, arms []*ssa.Function) {
-	// among the arm functions' extents: the function that compares its parameter with the current deadline
+	// among the arm functions' extents: the function that compares its (uint32) parameter with the
+	// current deadline. The two quantities are only compared with each other and with 0, so the
+	// behaviour is decided by four cases; the setter must be reached exactly in the right ones.
 	n := 0
 	seen := map[*ssa.Function]bool{}
 	for _, af := range arms {
@@ -570,25 +572,23 @@ func (m *Model) ruleExpArm(r *Results, rule string, arms []*ssa.Function) {
 				continue
 			}
 			P := fn.Params[len(fn.Params)-1]
-			var lss, zero *ssa.If
+			if !types.Identical(P.Type(), types.Typ[types.Uint32]) {
+				continue
+			}
+			isP := func(v ssa.Value) bool { return stripConv(v) == ssa.Value(P) }
+			isConstV := func(v ssa.Value) bool { _, ok := stripConv(v).(*ssa.Const); return ok }
+			compares := false
 			for _, iff := range allIfs(fn) {
 				cd := condOf(iff)
-				if cd.Op == token.LSS && stripConv(cd.X) == ssa.Value(P) {
-					lss = iff
-				}
-				if cd.Op == token.GTR && stripConv(cd.Y) == ssa.Value(P) {
-					lss = iff
-				}
-				if (cd.Op == token.EQL) && isZeroConst(cd.Y) && stripConv(cd.X) != ssa.Value(P) {
-					zero = iff
+				if cd.Op != token.ILLEGAL && (isP(cd.X) && !isConstV(cd.Y) || isP(cd.Y) && !isConstV(cd.X)) {
+					compares = true
 				}
 			}
-			if lss == nil {
+			if !compares {
 				continue
 			}
 			seen[fn] = true
 			n++
-			// the setter call must be control dependent on exactly: (cur == 0) true or (exp < cur) true
 			var setCall ssa.CallInstruction
 			m.eachCall(fn, func(c ssa.CallInstruction) {
 				if callee := c.Common().StaticCallee(); callee != nil && m.inPkg(callee) {
@@ -602,21 +602,80 @@ func (m *Model) ruleExpArm(r *Results, rule string, arms []*ssa.Function) {
 				}
 			})
 			key := "c / " + m.declName(fn) + " / re-arm condition"
-			if setCall == nil || zero == nil {
-				r.bad(rule, key, m.pos(fn.Pos()), "the arm function must (re)schedule when nothing is scheduled (current deadline 0) or when the new expiry is earlier than the current deadline")
+			if setCall == nil {
+				r.bad(rule, key, m.pos(fn.Pos()), "the arm function never (re)schedules the timer")
 				continue
 			}
-			// cut both "pass" edges: the set call must become unreachable; and each pass edge alone must reach it
-			c := newCut()
-			zc, lc := condOf(zero), condOf(lss)
-			c.cutEdge(zero.Block(), zc.succWhen(true))
-			lssTrue := lc.succWhen(true)
-			c.cutEdge(lss.Block(), lssTrue)
-			// also the early "exp == 0 -> return" guard is fine
-			unreachable := !entryReach(fn, c)[setCall.Block().Index]
-			viaZero := reachableFrom(zc.succWhen(true), nil)[setCall.Block().Index]
-			viaLss := reachableFrom(lssTrue, nil)[setCall.Block().Index]
-			r.check(unreachable && viaZero && viaLss, rule, key, m.instrPos(setCall), "re-armed exactly when nothing is scheduled or the new expiry is earlier", "the timer is not re-armed exactly when (current deadline == 0) or (new expiry < current deadline): earlier deadlines can be ignored or later ones can replace them")
+			// cases: (current deadline is 0?, new expiry relative to current: -1 <, 0 ==, +1 >); exp itself is non-zero here
+			type kase struct {
+				curZero bool
+				rel     int
+				want    bool
+			}
+			cases := []kase{{true, +1, true}, {false, -1, true}, {false, 0, false}, {false, +1, false}}
+			okAll := true
+			detail := ""
+			for _, k := range cases {
+				c := newCut()
+				for _, iff := range allIfs(fn) {
+					cd := condOf(iff)
+					var outcome, known bool
+					switch {
+					case cd.Op == token.ILLEGAL:
+					case isZeroConst(cd.Y) && isP(cd.X) || isZeroConst(cd.X) && isP(cd.Y):
+						// exp compared with 0: exp is non-zero in all cases considered
+						switch cd.Op {
+						case token.EQL:
+							outcome, known = false, true
+						case token.NEQ, token.GTR:
+							outcome, known = true, true
+						}
+						if isZeroConst(cd.X) && cd.Op == token.LSS { // 0 < exp
+							outcome, known = true, true
+						}
+					case isZeroConst(cd.Y) && !isP(cd.X) || isZeroConst(cd.X) && !isP(cd.Y):
+						// current deadline compared with 0
+						switch cd.Op {
+						case token.EQL:
+							outcome, known = k.curZero, true
+						case token.NEQ:
+							outcome, known = !k.curZero, true
+						case token.GTR:
+							if isZeroConst(cd.Y) {
+								outcome, known = !k.curZero, true
+							}
+						}
+					case isP(cd.X) && !isConstV(cd.Y), isP(cd.Y) && !isConstV(cd.X):
+						rel := k.rel // exp REL cur
+						if isP(cd.Y) {
+							rel = -rel // cur REL exp as written
+						}
+						switch cd.Op {
+						case token.LSS:
+							outcome, known = rel < 0, true
+						case token.LEQ:
+							outcome, known = rel <= 0, true
+						case token.GTR:
+							outcome, known = rel > 0, true
+						case token.GEQ:
+							outcome, known = rel >= 0, true
+						case token.EQL:
+							outcome, known = rel == 0, true
+						case token.NEQ:
+							outcome, known = rel != 0, true
+						}
+					}
+					if known {
+						c.cutEdge(iff.Block(), cd.succWhen(!outcome))
+					}
+				}
+				got := entryReach(fn, c)[setCall.Block().Index]
+				if got != k.want {
+					okAll = false
+					detail = fmt.Sprintf("with current deadline %s and new expiry %s it, the timer is %s", map[bool]string{true: "unset (0)", false: "set"}[k.curZero], map[int]string{-1: "before", 0: "equal to", 1: "after"}[k.rel], map[bool]string{true: "re-armed", false: "not re-armed"}[got])
+				}
+			}
+			r.check(okAll, rule, key, m.instrPos(setCall), "re-armed exactly when nothing is scheduled or the new expiry is earlier", "the timer is not re-armed exactly when (current deadline == 0) or (new expiry < current deadline): "+detail)
 		}
 	}
 	if n == 0 {
@@ -725,8 +784,8 @@ func (m *Model) ruleExpOffset(r *Results, rule string) {
 	// the addition is a finite union of intervals, computed path by path.
 	const maxU = uint64(1<<32 - 1)
 	got := ivSet{}
-	var walk func(b *ssa.BasicBlock, cur ivSet, seen map[int]bool)
-	walk = func(b *ssa.BasicBlock, cur ivSet, seen map[int]bool) {
+	var walk func(b, from *ssa.BasicBlock, cur ivSet, seen map[int]bool)
+	walk = func(b, from *ssa.BasicBlock, cur ivSet, seen map[int]bool) {
 		if len(cur) == 0 || seen[b.Index] {
 			return
 		}
@@ -742,11 +801,37 @@ func (m *Model) ruleExpOffset(r *Results, rule string) {
 		iff, ok := b.Instrs[len(b.Instrs)-1].(*ssa.If)
 		if !ok {
 			for _, s := range b.Succs {
-				walk(s, cur, seen)
+				walk(s, b, cur, seen)
 			}
 			return
 		}
 		cd := condOf(iff)
+		// a condition kept in a variable: the value depends on the predecessor we came from
+		if phi, _ := phiIf(b); phi != nil && from != nil {
+			for i, p := range b.Preds {
+				if p != from {
+					continue
+				}
+				if forced, ok := constBoolOutcome(b, i); ok {
+					walk(forced, b, cur, seen)
+					return
+				}
+				neg := false
+				v := iff.Cond
+				for {
+					if u, ok := v.(*ssa.UnOp); ok && u.Op == token.NOT {
+						neg = !neg
+						v = u.X
+						continue
+					}
+					break
+				}
+				cd = condOfValue(phi.Edges[i], iff)
+				if neg {
+					cd.Neg = !cd.Neg
+				}
+			}
+		}
 		var cst uint64
 		var op token.Token
 		okCmp := false
@@ -758,15 +843,15 @@ func (m *Model) ruleExpOffset(r *Results, rule string) {
 		}
 		if !okCmp || op == token.ILLEGAL {
 			for _, s := range b.Succs {
-				walk(s, cur, seen)
+				walk(s, b, cur, seen)
 			}
 			return
 		}
 		holds := ivFor(op, cst, maxU)
-		walk(cd.succWhen(true), cur.intersect(holds), seen)
-		walk(cd.succWhen(false), cur.intersect(holds.complement(maxU)), seen)
+		walk(cd.succWhen(true), b, cur.intersect(holds), seen)
+		walk(cd.succWhen(false), b, cur.intersect(holds.complement(maxU)), seen)
 	}
-	walk(fn.Blocks[0], ivSet{{0, maxU}}, map[int]bool{})
+	walk(fn.Blocks[0], nil, ivSet{{0, maxU}}, map[int]bool{})
 	want := ivSet{{1, 60 * 60 * 24 * 30}}
 	r.check(got.equal(want), rule, key, m.instrPos(add), "now is added exactly when 0 < exp <= 30 days (inputs reaching the addition: "+got.String()+")", "the offset-to-absolute conversion is applied for inputs "+got.String()+", not exactly for 0 < exp <= 2592000 (30 days): offsets at the boundary are stored raw, or absolute times are shifted")
 }
@@ -887,21 +972,43 @@ func (a ivSet) String() string {
 
 func (m *Model) ruleCHECKPOINT(r *Results) {
 	const rule = "R-CHECKPOINT"
-	fn, pull, cb := m.feedLoopFn()
+	fn, _, cb := m.feedLoopFn()
 	bs := m.backfillSites()
 	if fn == nil || len(bs) != 1 {
 		r.undecided(rule, "anchors", "-", "feed loop / backfill unresolved")
 		return
 	}
 	name := m.declName(fn)
-	// the delivered-CAS field: the uint64 field of the feed stored in the loop
+	// the delivered-CAS field: the uint64 field of the feed stored in the loop, directly or in a
+	// helper the loop calls
 	var store *ssa.Store
+	var via ssa.CallInstruction // the loop's call of the helper holding the store (nil if direct)
+	isMarkStore := func(ins ssa.Instruction) *ssa.Store {
+		if st, ok := ins.(*ssa.Store); ok {
+			if fa, ok := st.Addr.(*ssa.FieldAddr); ok {
+				if bt, ok := fieldOf(fa).Type().Underlying().(*types.Basic); ok && bt.Kind() == types.Uint64 {
+					return st
+				}
+			}
+		}
+		return nil
+	}
 	for _, b := range fn.Blocks {
+		if !inCycle(b) {
+			continue
+		}
 		for _, ins := range b.Instrs {
-			if st, ok := ins.(*ssa.Store); ok && inCycle(b) {
-				if fa, ok := st.Addr.(*ssa.FieldAddr); ok {
-					if bt, ok := fieldOf(fa).Type().Underlying().(*types.Basic); ok && bt.Kind() == types.Uint64 {
-						store = st
+			if st := isMarkStore(ins); st != nil {
+				store, via = st, nil
+			}
+			if c, ok := ins.(ssa.CallInstruction); ok && store == nil {
+				if h := c.Common().StaticCallee(); h != nil && m.inPkg(h) && h != cb.Common().StaticCallee() {
+					for _, hb := range h.Blocks {
+						for _, hi := range hb.Instrs {
+							if st := isMarkStore(hi); st != nil {
+								store, via = st, c
+							}
+						}
 					}
 				}
 			}
@@ -912,30 +1019,50 @@ func (m *Model) ruleCHECKPOINT(r *Results) {
 		return
 	}
 	casField := fieldOf(store.Addr.(*ssa.FieldAddr))
+	// isEvCas: the value is the Cas of the event just pulled (through the helper's parameter if any)
+	var isEvCas func(v ssa.Value) bool
+	isEvCas = func(v ssa.Value) bool {
+		v = stripConv(v)
+		if p, ok := v.(*ssa.Parameter); ok && via != nil && p.Parent() == via.Common().StaticCallee() {
+			for i, q := range p.Parent().Params {
+				if q == p && i < len(via.Common().Args) {
+					return isEvCas(via.Common().Args[i])
+				}
+			}
+			return false
+		}
+		base, vf, ok := fieldLoad(v)
+		return ok && vf.Name() == "Cas" && m.pulledValue(base)
+	}
+	var anchor ssa.Instruction = store
+	if via != nil {
+		anchor = via
+	}
 	// value = Cas of the pulled event
-	base, vf, ok := fieldLoad(store.Val)
-	fromEvent := ok && vf.Name() == "Cas" && stripConv(base) == ssa.Value(pull.Value())
-	r.check(fromEvent, rule, name+" / delivered CAS is the event's", m.instrPos(store), "the delivered-CAS mark is taken from the event just pulled", "the delivered-CAS mark is not the CAS of the event that was just delivered")
+	r.check(isEvCas(store.Val), rule, name+" / delivered CAS is the event's", m.instrPos(store), "the delivered-CAS mark is taken from the event just pulled", "the delivered-CAS mark is not the CAS of the event that was just delivered")
 	// after the callback
-	r.check(instrReachable(cb, store, nil) && (cb.Block() == store.Block() || cb.Block().Dominates(store.Block())), rule, name+" / mark after delivery", m.instrPos(store), "the mark advances only after the callback has run for that event", "the mark can advance before the event has been handed to the callback: a stop in between persists a checkpoint beyond what was delivered")
+	r.check(instrReachable(cb, anchor, nil) && (cb.Block() == anchor.Block() || cb.Block().Dominates(anchor.Block())), rule, name+" / mark after delivery", m.instrPos(store), "the mark advances only after the callback has run for that event", "the mark can advance before the event has been handed to the callback: a stop in between persists a checkpoint beyond what was delivered")
 	// only upwards
 	up := false
-	for _, ct := range controllingConds(fn, store.Block()) {
+	conds := controllingConds(store.Parent(), store.Block())
+	if via != nil {
+		conds = append(conds, controllingConds(fn, via.Block())...)
+	}
+	for _, ct := range conds {
 		cd := condOf(ct.If)
-		_, fx, okx := fieldLoad(cd.X)
-		_, fy, oky := fieldLoad(cd.Y)
 		taken := ct.Branch
 		if cd.Neg {
 			taken = !taken
 		}
-		if !okx || !oky {
-			continue
+		isMark := func(v ssa.Value) bool {
+			_, f, ok := fieldLoad(v)
+			return ok && f == casField
 		}
 		// normalise to: event.Cas OP mark
 		op := cd.Op
-		if fy.Name() == "Cas" && fx == casField {
+		if isEvCas(cd.Y) && isMark(cd.X) {
 			op = map[token.Token]token.Token{token.LSS: token.GTR, token.GTR: token.LSS, token.LEQ: token.GEQ, token.GEQ: token.LEQ}[op]
-		} else if !(fx.Name() == "Cas" && fy == casField) {
+		} else if !(isEvCas(cd.X) && isMark(cd.Y)) {
 			continue
 		}
 		if op == token.GTR && taken || op == token.LEQ && !taken {
